@@ -90,6 +90,7 @@ public:
     i64 chatter_ns = 0;
     int chatter_count = 0;
     std::string chatter_data;
+    std::string chatter_left;       // what is left of a chatter message that the socket did not take whole
     size_t read_burst = 0;          // 0: read everything available; else at most this many bytes per read event
     i64 read_interval_ns = 0;       // pause between read events when read_burst is set
     std::string received;
